@@ -21,10 +21,10 @@ T = {
  "C03a": ("C03", "STABLE structure with shape <= 0.35 at distances beyond 100 scale units", "C03 quick", "form:STABLE"),
  "C03b": ("C03", "3-D anisotropy with first or second rotation angle outside [0,180[ and a non-zero later angle", "C03 quick", "form:EXPONENTIAL:aniso"),
  "C09a": ("C09", "Db neutral file whose counts are valid ints but whose product wraps (>= 2^31)", "C09 quick", "Db:uncaught-exception"),
- "C02a": ("C02", "target on a datum + numerically demanding system (Gaussian/cubic without nugget, tens of samples): slightly negative variance becomes NaN", "MISSED by C02 quick at the time of seeding (ill-conditioned systems were skipped); harness extension requested", ""),
+ "C02a": ("C02", "target on a datum + numerically demanding system (Gaussian/cubic without nugget, tens of samples): slightly negative variance becomes NaN", "C02 quick (after adding part stdev_always_finite on ill-conditioned systems; missed before)", "always:stdev-NaN:known-mean:unique"),
  "C02b": ("C02", "model with drift and an input Db whose first nech rows have an undefined variable", "C02 quick", "unbiased:wgt-shape:drift:monovar:moving"),
  "C05a": ("C05", "xvalid in unique neighbourhood with an active sample whose value is undefined and which is not the last one", "C05 quick", "xvalid:unique:undefined-value"),
- "C05b": ("C05", "conditional simtub onto a grid with a masked datum lying exactly on a grid node", "MISSED by C05 quick at the time of seeding (no datum on a grid node in the menus); harness extension requested", ""),
+ "C05b": ("C05", "conditional simtub onto a grid with a masked datum lying exactly on a grid node", "C05 quick (after adding part simtub_data_on_grid_nodes; missed before)", "simtub-on-nodes:masked-datum-on-node:differs-from-removed:*"),
  "C08a": ("C08", "Model with a Matern/Stable/Cauchy/Gamma structure whose third parameter is not 1", "C08 quick", "roundtrip:Model:cova"),
  "C08b": ("C08", "polygon set where an earlier element has vertical limits and a later one has them undefined", "C08 quick", "roundtrip:Polygons:rewrite-differs"),
  "C11a": ("C11", "sparse x sparse product with both transposition flags and two different non-commuting operands", "C11 quick", "prodMatMat:sparse-kernel:sparse-eigen:TT:nonsquare"),
@@ -33,7 +33,7 @@ T = {
  "C13b": ("C13", "conditional plurigaussian with a rule using the second GRF and data exactly on target nodes", "C13 quick", "pgs:facies-at-data"),
  "C15a": ("C15", "matrix-free operator with an even number of Markov coefficients (param + ndim/2 odd)", "C15 quick", "opq:matrixfree-vs-assembled:turbo1d:matern"),
  "C15b": ("C15", "turbo mesh both rotated and with unequal cell sizes", "C15 quick", "proj:affine-not-reproduced:turbo3d"),
- "C18a": ("C18", "gaussianToRaw on >= 2 variables whose UIDs are not consecutive in locator order", "MISSED by C18 quick at the time of seeding (Db-level transforms driven on one variable); harness extension requested", ""),
+ "C18a": ("C18", "gaussianToRaw on >= 2 variables whose UIDs are not consecutive in locator order", "C18 quick (after adding part anam_db_layout; missed before)", "anam-db:gaussianToRawByLocator:interleaved:wrong-values"),
  "C18b": ("C18", "PCA/MAF on a Db with a selection or undefined values and non-centred variables", "C18 quick", "pca:factor-mean"),
  "C19a": ("C19", "calculator run without input Db failing after pre-processing (e.g. non-conditional simtub with a structure turning bands cannot simulate)", "C19 quick", "rollback:fluid_propagation:addvar#2"),
  "C19b": ("C19", "dbRegression with an explicit auxiliary Db different from the first one", "C19 quick (after adding two-Db scenarios and snapshots of every Db involved; missed before)", "success-changes-input:dbRegression-db2-larger"),
@@ -41,7 +41,9 @@ T = {
  "C16b": ("C16", "rotated grid with unequal mesh sizes through point_to_grid / index_point_to_grid", "C16 quick", "locate:point_to_grid:rotated"),
  "C17a": ("C17", ">= 2 variables, constant-total-sill constraint, unconstrained sill matrix not positive definite, larger rescale factor second", "C17 quick", "sill:not-psd:NUGGET:nvar=2"),
  "C17b": ("C17", "item constraint on a structure that is not the first, an earlier structure pruned, pass not converged within maxiter", "C17 quick", "constraint:violated-after-structure-reduction:sill"),
- "C09b": ("C09", "24/32-bit BMP whose colour-count header field exceeds 256", "MISSED by C09 quick at the time of seeding (BMP reader not in the corpus); harness extension requested", ""),
+ "C14a": ("C14", "law_binomial in the BTPE branch with n*p*q > 42", "C14 quick", "moments:binomial:BTPE"),
+ "C14b": ("C14", "turning bands on a grid support with a Matern structure of parameter < 0.5", "MISSED by C14 quick at the time of seeding (microsim menus: spherical/exponential/gaussian only); harness extension requested", ""),
+ "C09b": ("C09", "24/32-bit BMP whose colour-count header field exceeds 256", "C09 quick (after adding the binary grid readers with header-field faults; missed before)", "GridBmp:header-field:biClrUsed=small:memory-error"),
 }
 for seed, (prop, needs, caught, key) in T.items():
     d = os.path.join(R, "seeded", seed)
